@@ -27,6 +27,8 @@ if r.returncode!=0:
     print("BUILD FAILED", r.stderr[-2000:]); sys.exit(1)
 if '--suite' in sys.argv:
     r = subprocess.run(['go','test','-vet=off','-count=1','./...'],cwd=wt,env=env,capture_output=True,text=True)
-    print("suite:", "PASS" if r.returncode==0 else "FAIL\n"+r.stdout[-1500:])
+    print("suite:", "PASS" if r.returncode==0 else "FAIL (mutant discarded: the existing tests already catch it)")
+    if r.returncode!=0:
+        os.remove(f'/verif/mutants/{pid}/{name}.diff')
 subprocess.run(['git','-C',wt,'checkout','--','.'],check=True)
 print(f"wrote mutants/{pid}/{name}.diff ({len(d.splitlines())} lines)")
